@@ -49,6 +49,7 @@ def sparse_mux(sel, vals):
     import numbers
 
     max_val = 2**len(sel) - 1
+    vals = dict(vals)  # filled in below: not the caller's table
     if SparseDefault in vals:
         default_val = vals[SparseDefault]
         del vals[SparseDefault]
